@@ -377,6 +377,68 @@ impl Clone for Gen {
     }
 }
 
+/// `dst.clone_from(&src)` for every position of dst: afterwards dst must hold what a clone of
+/// src holds (and src must be undisturbed), whatever dst had consumed before
+fn clone_from_case<E: Elem + Clone, N: ArrayLength>(f: usize, b: usize, df: usize, db: usize) -> Result<(), String> {
+    let src = fresh::<E, N>(f, b)?;
+    let mut dst = fresh::<E, N>(df, db)?;
+    dst.it.clone_from(&src.it);
+    if dst.it.len() != src.model.len() || dst.it.as_slice().len() != src.model.len() {
+        return Err(format!("CloneMismatch: after clone_from dst has {} elements, src has {}", dst.it.len(), src.model.len()));
+    }
+    check_state(&src)?;
+    // drive both to the end from alternating sides; they must agree on when they end
+    let mut d = dst.it;
+    let mut s = src.it;
+    let mut turn = 0;
+    loop {
+        let (a, b2) = if turn % 3 == 0 { (s.next_back(), d.next_back()) } else { (s.next(), d.next()) };
+        if a.is_some() != b2.is_some() {
+            return Err("CloneMismatch: clone_from target and source disagree on their length when consumed".into());
+        }
+        if a.is_none() {
+            break;
+        }
+        turn += 1;
+    }
+    if d.next().is_some() || d.next_back().is_some() || d.len() != 0 {
+        return Err("NotFused: clone_from target not exhausted with its source".into());
+    }
+    Ok(())
+}
+
+/// with plain values the contents can be compared directly
+fn clone_from_values<N: ArrayLength>(f: usize, b: usize, df: usize, db: usize) -> Result<(), String> {
+    let n = N::USIZE;
+    let mk = |base: u32, f: usize, b: usize| {
+        let mut it = GA::<u32, N>::generate(|i| base + i as u32).into_iter();
+        for _ in 0..f {
+            it.next();
+        }
+        for _ in 0..(n - b) {
+            it.next_back();
+        }
+        it
+    };
+    let src = mk(100, f, b);
+    let mut dst = mk(500, df, db);
+    dst.clone_from(&src);
+    if dst.as_slice() != src.as_slice() {
+        return Err(format!("CloneMismatch: clone_from gives {:?}, source holds {:?}", dst.as_slice(), src.as_slice()));
+    }
+    let mut o: Option<GenericArrayIter<u32, N>> = Some(mk(900, df, db));
+    o.clone_from(&Some(src.clone()));
+    if o.as_ref().map(|i| i.as_slice().to_vec()) != Some(src.as_slice().to_vec()) {
+        return Err("CloneMismatch: Option::clone_from".into());
+    }
+    let a: Vec<u32> = dst.collect();
+    let b2: Vec<u32> = src.collect();
+    if a != b2 {
+        return Err(format!("CloneMismatch: clone_from target yields {a:?}, source {b2:?}"));
+    }
+    Ok(())
+}
+
 fn gen_clone_twin<N: ArrayLength, const K: usize>(f: usize, b: usize) -> Result<(), String>
 where
     generic_array::typenum::Const<K>: generic_array::IntoArrayLength<ArrayLength = N>,
@@ -573,6 +635,26 @@ where
                 report(st, "Gen(no-drop,non-bitcopy Clone)", Op::Clone, &desc, res);
                 st.op("clone.gen_twin");
                 st.done(&desc, len > 0);
+            }
+            // clone_from into a target at every position
+            for df in 0..=n {
+                for db in df..=n {
+                    let Some(desc) = st.select(|| format!("C06 clone_from A Tok N={n} src=({f},{b}) dst=({df},{db})")) else { continue };
+                    ledger::begin_case();
+                    let r = vkit::catch(|| clone_from_case::<Tok, N>(f, b, df, db).and_then(|_| clone_from_values::<N>(f, b, df, db)));
+                    let res = match r {
+                        vkit::Caught::Returned(x) => x,
+                        vkit::Caught::Injected(..) => Err("HarnessBug: injected".into()),
+                        vkit::Caught::Other(m) => Err(format!("Panic: {m} ({})", fault::last_panic())),
+                    };
+                    if let Err(e) = res {
+                        let kind = e.split(':').next().unwrap_or("Mismatch").to_string();
+                        st.violation("C06", &format!("clone_from|Tok|{kind}"), &desc, &e);
+                    }
+                    st.judge_ledger("C06", "clone_from|Tok", &desc, false);
+                    st.op("clone_from");
+                    st.done(&desc, len > 0);
+                }
             }
             for which in ["debug_ids", "clone_ids"] {
                 let Some(desc) = st.select(|| format!("C06 {which} A Tok N={n} pos=({f},{b})")) else { continue };
